@@ -34,10 +34,14 @@ PROPS = {}
 PROPS['C01'] = Prop(
     quick=[Run('cl_history_k4', 'cl_history.cpp', {'KK': 4}, covers=8,
                bounds='K=4 mutator steps (append/prepend/insert-before-h/remove-h/removeListener(probe)), h over every handle handed out so far (live or stale) + empty handle; N<=4 callbacks; '
-                      'ids, probes, invocation arguments, forEachIf stop index: symbolic 32-bit; full observation suite after every step')],
-    thorough=[Run('cl_history_k5', 'cl_history.cpp', {'KK': 5}, covers=8, budget_s=1700,
+                      'ids, probes, invocation arguments, forEachIf stop index: symbolic 32-bit; full observation suite after every step'),
+           Run('cl_inductive_n4', 'cl_inductive.cpp', {'NMAX': 4}, covers=5,
+               bounds='INDUCTIVE STEP: from every state satisfying the representation invariant INV with n <= 4 nodes (unique shape; every node counter, the list counter and every id fully symbolic within INV; one stale and one empty handle) '
+                      'ONE arbitrary operation (append/prepend/insert-before/remove/removeListener) behaves per model and re-establishes INV; with the base case this extends the bounded-history verdict to histories of any length over lists of <= 4 callbacks, relative to INV')],
+    thorough=[Run('cl_inductive_n5', 'cl_inductive.cpp', {'NMAX': 5}, covers=5, bounds='inductive step from every INV-state with <= 5 nodes (see quick)'),
+              Run('cl_history_k5', 'cl_history.cpp', {'KK': 5}, covers=8, budget_s=1700,
                   bounds='K=5 mutator steps, N<=5 callbacks; otherwise as quick')],
-    outside='histories longer than K mutator steps / more than K callbacks alive; operations issued from inside callbacks (C02); threads (C03)',
+    outside='lists of more than 4 (thorough: 5) live callbacks; for histories beyond K steps the verdict is relative to the invariant INV stated in harness/cl_inductive.cpp; operations issued from inside callbacks (C02); threads (C03)',
     assumptions=['callback type is a POD functor with operator== (Policies::Callback); Threading = instrumented non-recursive mutex + plain atomics'])
 
 PROPS['C02'] = Prop(
